@@ -120,13 +120,13 @@ def run(ctx):
     offsets = [0, 1, -1, 2, 27, 28, 29, 30, 31, 59, 60, 365, 366, -365, -366, 1461, 36524, 36525, 146097, -146097, 1000000]
     picks = rng.sample(days, 300 if ctx.thorough else 60) + [first, first + 1, last, last - 1]
     # ... and the same laws for dates with a time of day (to the second)
-    for n in rng.sample(days, 400 if ctx.thorough else 80) + [first, last - 1]:
+    for n in rng.sample(days, 400 if ctx.thorough else 80) + [first, last - 1, last - 2, last]:
         d = ref_date(n)
         h, mi, sec = rng.choice([(6, 3, 53), (23, 59, 59), (0, 0, 1), (12, 0, 0), (rng.randrange(24), rng.randrange(60), rng.randrange(60))])
         x = datetime.datetime(d.year, d.month, d.day, h, mi, sec)
         env.put("d", V.ValueDate(x))
         for k in rng.sample(offsets, 6):
-            if not (first <= n + k <= last - 1):
+            if not (first <= n + k <= last):
                 continue
             env.put("k", V.ValueInt(k))
             t = x + datetime.timedelta(days=k)
